@@ -29,6 +29,7 @@ import (
 	"strconv"
 	"strings"
 	"testing"
+	"time"
 
 	"github.com/couchbase/sync_gateway/auth"
 	"github.com/couchbase/sync_gateway/base"
@@ -377,6 +378,22 @@ func TestVerif_C13_Revocation(t *testing.T) {
 			return true, vC13Gen(rev.RevID), ""
 		}
 
+		// generous liveness bound (wall clock): the cache must reach the last allocated sequence; a stall is an infrastructure
+		// failure (VERIF-FATAL -> inconclusive), reported with the place it happened
+		waitCache := func(where string) {
+			last, err := db.sequences.lastSequence(ctx)
+			if err != nil {
+				fatal("lastSequence", err)
+			}
+			deadline := time.Now().Add(90 * time.Second)
+			for db.changeCache.getNextSequence() < last+1 {
+				if time.Now().After(deadline) {
+					fatal("change cache stalled "+where, fmt.Errorf("next sequence %d, last allocated %d", db.changeCache.getNextSequence(), last))
+				}
+				time.Sleep(2 * time.Millisecond)
+			}
+		}
+
 		// ---- the client ---------------------------------------------------------------------------------
 		replica := map[string]int{}
 		since := "0"
@@ -389,7 +406,7 @@ func TestVerif_C13_Revocation(t *testing.T) {
 			return o
 		}
 		page := func(lim int) {
-			db.WaitForPendingChanges(t)
+			waitCache("before page")
 			o := vObj{"a": "Page", "lim": lim, "since0": append([]int{}, sinceTok...), "found": true}
 			rows, fetches, probes := []vObj{}, []vObj{}, []vObj{}
 			// a request loads the user and, lazily, the roles it needs; the binding loads every role up front so that the
@@ -563,11 +580,11 @@ func TestVerif_C13_Revocation(t *testing.T) {
 			}
 			// let the change cache see every sequence before the next write: two quick updates of one principal document are
 			// de-duplicated by the feed, the earlier sequence would then be "skipped" (5 s wait, LowSeq in every token)
-			db.WaitForPendingChanges(t)
+			waitCache(fmt.Sprintf("after %s", st.A))
 		}
 
 		// ---- cleanup: keep the shared database small ------------------------------------------------------
-		db.WaitForPendingChanges(t)
+		waitCache("before cleanup")
 		for _, d := range vC13Docs {
 			if revs[d] != "" {
 				_ = col.Purge(ctx, real(d), false)
